@@ -270,6 +270,8 @@ const EXTRA: &[char] = &[
     'a', 'b', 'z', 'Q', '0', '7', ' ', ' ', '+', '-', '_', ';', ';', '.', 'é', 'ß', '😀', '\u{a0}', '\u{2003}',
     '\u{3000}', '\u{2028}', '\u{85}', '中', '文', 'あ', '\u{301}', '\u{20dd}', '٣', 'Ⅷ', '²', '\t', '\u{1b}', '\u{7f}',
     '\u{80}', '\u{10ffff}', '\u{200b}', 'ǅ',
+    // first and last characters of every UTF-8 length class and lead byte (C2/DF, E0/E1/ED/EE/EF, F0/F1/F4)
+    '\u{7ff}', '\u{800}', 'ก', '\u{fff}', '\u{1000}', '\u{d7ff}', '\u{e000}', '\u{fffd}', '\u{10000}', '\u{40000}', '\u{100000}',
 ];
 
 fn random_text(r: &mut Rng, max: u64) -> String {
@@ -476,7 +478,7 @@ pub fn run(o: &Opts) {
 fn tty_case(r: &mut Rng) -> Case {
     // (entries ending in blanks included: the history file must give them back as they were typed)
     const WORDS: [&str; 12] = ["@a", "@b1", "@é", "@中x", "@12", "@a b", "@", "@ab  c", "@t ", "@u  ", "@v\t", "@２x"];
-    const INS: [char; 8] = ['a', 'b', '1', 'é', ' ', ';', '@', '中'];
+    const INS: [char; 10] = ['a', 'b', '1', 'é', ' ', ';', '@', '中', 'ก', '\u{7ff}'];
     let mut hist = Vec::new();
     for _ in 0..r.below(3) {
         hist.push(format!("echo {}", r.pick(&WORDS)));
